@@ -111,6 +111,9 @@ func runCall(c histCall, shared *pql.CompileOptions) string {
 		sql, err = (&pql.CompileOptions{Parameters: map[string]string{}}).Compile(c.Src)
 	case "shared":
 		sql, err = shared.Compile(c.Src)
+	case "twin5", "twin6", "twin7", "twin8", "twin9":
+		seps := [][2]string{{"=", "\n"}, {"=", "&"}, {"=", ","}, {"\x00", "\x00"}, {"=", ";"}}[int(c.Opts[4]-'5')]
+		sql, err = (&pql.CompileOptions{Parameters: mergedTwin(shared.Parameters, seps[0], seps[1])}).Compile(c.Src)
 	case "twin0", "twin1", "twin2", "twin3", "twin4":
 		sql, err = (&pql.CompileOptions{Parameters: twinMap(shared.Parameters, int(c.Opts[4]-'0'))}).Compile(c.Src)
 	default:
@@ -156,6 +159,25 @@ func twinMap(shared map[string]string, which int) map[string]string {
 	default:
 		out["zz_extra"] = "$9"
 	}
+	return out
+}
+
+// mergedTwin folds the last entry of the map into the value of the one before
+// it, written the way a careless serialisation would write the two entries.
+func mergedTwin(shared map[string]string, kvSep, entrySep string) map[string]string {
+	keys := make([]string, 0, len(shared))
+	for k := range shared {
+		keys = append(keys, k)
+	}
+	sort.Strings(keys)
+	out := copyMap(shared)
+	if len(keys) < 2 {
+		out["zz_extra"] = "$9"
+		return out
+	}
+	k1, k2 := keys[len(keys)-2], keys[len(keys)-1]
+	delete(out, k2)
+	out[k1] = shared[k1] + entrySep + k2 + kvSep + shared[k2]
 	return out
 }
 
@@ -405,7 +427,7 @@ func TestC14Histories(t *testing.T) {
 			fmt.Sprintf("let %s = %d; T | where a > %s | take 3", fresh, rapid.IntRange(1, 9).Draw(rt, "freshval"), fresh),
 			fmt.Sprintf("T | where %s > 3 | project %s, b | take lim", fresh, fresh))
 		for i, n := 0, rapid.IntRange(2, 6).Draw(rt, "npool"); i < n; i++ {
-			switch rapid.IntRange(0, 13).Draw(rt, "srckind") {
+			switch rapid.IntRange(0, 14).Draw(rt, "srckind") {
 			case 9:
 				// many operators: any limit or table keyed by their number is the
 				// same whatever options value the call goes through
@@ -439,6 +461,10 @@ func TestC14Histories(t *testing.T) {
 				pool = append(pool, fmt.Sprintf("let %s = %d; T | where a == %s and b < p1 | take lim", p, rapid.IntRange(0, 9).Draw(rt, "v"), p))
 			case 1:
 				pool = append(pool, "T | where not(isnull(a)) and tolower(b) == strcat('x', c) | summarize n = countif(iff(a > 1, true, false)), count() by now()")
+			case 14:
+				// misspelt names in let values: the error text is a function of
+				// this call's source and parameters, not of earlier failures
+				pool = append(pool, "let enabled = True; T | where a == enabled | count", "let n = limt; T | take n", "let m = nul; T | where b == m", "let q = p11; T | take q", "let z = flase; T | where z")
 			case 12:
 				// the clock is no input: now() is written as SQL's own clock
 				pool = append(pool, rapid.SampledFrom([]string{"let t0 = now(); T | where ts > t0 | take 1", "let cutoff = now() - 3600; T | where ts < cutoff | project ts, c = cutoff", "T | extend t = now() | summarize count() by now()"}).Draw(rt, "clocksrc"))
@@ -474,7 +500,7 @@ func TestC14Histories(t *testing.T) {
 				c.Kind = "scan"
 			default:
 				c.Kind = "compile"
-				c.Opts = rapid.SampledFrom([]string{"func", "nil", "zero", "empty", "shared", "shared", "shared", "own", "twin0", "twin1", "twin2", "twin3", "twin4"}).Draw(rt, "opts")
+				c.Opts = rapid.SampledFrom([]string{"func", "nil", "zero", "empty", "shared", "shared", "shared", "own", "twin0", "twin1", "twin2", "twin3", "twin4", "twin5", "twin6", "twin7", "twin8", "twin9"}).Draw(rt, "opts")
 			}
 			if c.Kind == "compile" && c.Opts == "shared" {
 				if strings.HasPrefix(c.Src, "let ") {
